@@ -22,6 +22,7 @@ import (
 
 func init() {
 	executors["send"] = execSend
+	executors["sendhist"] = execSendHist
 	scenarios["send"] = genSend
 }
 
@@ -265,6 +266,47 @@ func execSend(a []string) (string, string) {
 	return out, ""
 }
 
+// sendhist <auth> <integ> <k1> <k2> <localID> <remoteID> <n> <entropy>: n commands on one session, every reply lost
+func execSendHist(a []string) (string, string) {
+	auth, integ := byte(atoi(a[0])), byte(atoi(a[1]))
+	k1, k2 := unhx(a[2]), unhx(a[3])
+	n := atoi(a[6])
+	entropy := unhx(a[7])
+	e, err := openSession(auth, integ)
+	if err != nil {
+		return "handshake-failed", ""
+	}
+	defer e.cancel()
+	if !bytes.Equal(e.sess.K(1), k1) || !bytes.Equal(e.sess.K(2)[:16], k2) {
+		return "session-differs-from-op", ""
+	}
+	old := rand.Reader
+	rand.Reader = io.Reader(&cycleReader{b: entropy})
+	defer func() { rand.Reader = old }()
+	for i := 0; i < n; i++ {
+		e.script, e.pos = []string{"L"}, 0
+		c := &rawCmd{op: ipmi.Operation{Function: ipmi.NetworkFunctionAppReq, Command: 0x01}}
+		e.sess.SendCommand(e.ctx, c)
+	}
+	var ivs []byte
+	var seqs []string
+	seen := map[string]int{}
+	verdict := ""
+	for i, p := range e.sent {
+		r, why := e.bmc.open(p)
+		if r == nil {
+			return fmt.Sprintf("n=%d", len(e.sent)), fmt.Sprintf("datagram %d is not acceptable to the BMC: %s", i+1, why)
+		}
+		ivs = append(ivs, r.iv...)
+		seqs = append(seqs, fmt.Sprint(r.seq))
+		if j, dup := seen[string(r.iv)]; dup && verdict == "" {
+			verdict = fmt.Sprintf("datagram %d reuses the initialisation vector of datagram %d", i+1, j+1)
+		}
+		seen[string(r.iv)] = i
+	}
+	return fmt.Sprintf("n=%d ivs=%s seqs=[%s]", len(e.sent), hx(ivs), strings.Join(seqs, ", ")), verdict
+}
+
 // sessKeys runs the handshake once per suite to learn the (constant) session parameters
 type sessParams struct {
 	auth, integ byte
@@ -444,6 +486,13 @@ func genSend(g *genCtx) {
 		for n := 0; n < 64; n++ {
 			emit(sp, "F", []uint32{0, 1, 0xfffffffd, 0x7fffffff}[n%4], 0x06, 0x01, 0, 0, 0, rbytes(g.rng, n), false)
 		}
+		// a long history on one session: IVs must all be fresh draws (80 commands, thorough 300)
+		hn := 80
+		if g.thorough() {
+			hn = 300
+		}
+		g.emit(Op{Class: 'P', NonTrivial: true, Kind: "sendhist", Args: []string{itoa(int(sp.auth)), itoa(int(sp.integ)), hx(sp.k1), hx(sp.k2),
+			fmt.Sprint(sp.lid), fmt.Sprint(sp.rid), itoa(hn), hx(rbytes(g.rng, 16*hn))}})
 		emit(sp, "F", 0, 0x06, 0x3b, 0, 0, 0, nil, true)
 		emit(sp, "BF", 7, 0x06, 0x3b, 0, 0, 0, nil, true)
 	}
